@@ -6,7 +6,7 @@
 From Coq Require Import List Bool ZArith.
 From Coq.Strings Require Import Byte.
 Import ListNotations.
-From Zap Require Import Base.Wire C05.Cores C05.CoreProofs C05.Sampling C05.Model C06.Model C06.Proofs.
+From Zap Require Import Base.Wire C05.Cores C05.CoreProofs C05.Sampling C05.Model C06.Pool C06.PoolProofs C06.Model C06.Proofs.
 Open Scope Z_scope.
 
 (* every front-end method that can log at a terminal level (Panic, Fatal, and DPanic in development)
@@ -179,6 +179,61 @@ Theorem C06_terminates_orig_refuted : ~ terminates_orig_full.
 Proof. exact terminates_orig_refuted. Qed.
 Print Assumptions C06_terminates_orig_refuted.
 
+(* ---- the terminal action works on the entry that was logged, whatever is logged in between ----
+   CheckWriteAction.OnWrite panics with ce.Message, custom hooks read ce.Level / ce.Message / ce.LoggerName of the
+   *CheckedEntry they are handed; CheckedEntries are recycled through a sync.Pool.  C06/Pool.v is the machine: a heap
+   of entries, the pool, any number of threads each making log calls (Get + reset, fill, one read of ce.Entry per
+   core, the hook looks, Put - the order of zapcore/entry.go), a schedule interleaving the steps of all threads in
+   any way and choosing, for every Get, any pooled element or a new one.  A log call a hook, a sink or a marshaler
+   makes before it looks at the entry is a call of another thread that runs in a gap of the call it is nested in.
+   For EVERY such run: every core of every call was handed, and the hook of every call found in its CheckedEntry,
+   the entry that very call logged *)
+Theorem C06_hook_sees_logged_entry : forall jobs sc i d,
+  In d (t_done (p_thr (prun false sc (pinit jobs)) i)) ->
+  d_saw d = d_ent d /\ Forall (eq (d_ent d)) (d_reads d).
+Proof. exact hook_sees_logged_entry. Qed.
+Print Assumptions C06_hook_sees_logged_entry.
+(* ... also for a call that never gets to its Put (the hook has looked and panics, exits, calls Goexit) *)
+Theorem C06_hook_sees_logged_entry_when_it_looks : forall jobs sc i a j r,
+  let t := p_thr (prun false sc (pinit jobs)) i in
+  t_pc t = PPut a -> t_todo t = j :: r -> t_saw t = j_ent j /\ Forall (eq (j_ent j)) (t_reads t).
+Proof. exact hook_sees_logged_entry_now. Qed.
+Print Assumptions C06_hook_sees_logged_entry_when_it_looks.
+(* the records are of the calls the threads were given, in order: calls made ++ calls still to make *)
+Theorem C06_calls_accounted : forall early jobs sc i,
+  let t := p_thr (prun early sc (pinit jobs)) i in
+  map d_ent (t_done t) ++ map j_ent (t_todo t) = map j_ent (jobs i).
+Proof. exact calls_accounted. Qed.
+Print Assumptions C06_calls_accounted.
+(* with the front ends: in any run, any call that logged (l, msg, name) through any front-end method at a terminal
+   level - the hook finds exactly that entry, and the terminal action acting on what it finds ends the call as the
+   property says: the default action panics with msg; a custom hook that first logs through another logger and then
+   delegates to WriteThenPanic / WriteThenGoexit / WriteThenFatal or switches on ce.Level panics with msg / calls
+   Goexit / exits as the level l demands ([spec_term]: the oracle's terminal observation) *)
+Theorem C06_terminal_action_on_logged_entry : forall dec w lg io m l msg name jobs sc i d,
+  In m methods -> can_log m l = true -> terminal lg l ->
+  In d (t_done (p_thr (prun false sc (pinit jobs)) i)) ->
+  d_ent d = {| en_level := l; en_msg := msg; en_name := name |} ->
+  d_saw d = {| en_level := l; en_msg := msg; en_name := name |} /\
+  hook_term (snd (log_call_s dec w lg io (fam_of m) l)) (d_saw d) = spec_term lg l msg.
+Proof. exact action_on_logged_entry. Qed.
+Print Assumptions C06_terminal_action_on_logged_entry.
+Theorem C06_logging_hook_is_the_action : forall lg,
+  (forall k m, on_fatal lg = HHook k m -> expected_action lg FatalL = AHook k m) /\
+  (forall k m, on_panic lg = HHook k m -> expected_action lg PanicL = AHook k m /\ expected_action lg DPanicL = AHook k m).
+Proof. exact expected_action_hook. Qed.
+Print Assumptions C06_logging_hook_is_the_action.
+(* the interleaving the wire model runs (thread 1 makes [nested] complete calls and thread 2 advances [conc] steps
+   in every gap of the call of thread 0, sync.Pool handing out what was put back last) is one of them: the call
+   runs to its end, all k cores and the hook get the entry logged *)
+Theorem C06_wire_interleaving : forall e k nested conc, wire_seen false e k nested conc = (repeat e k, e).
+Proof. exact wire_seen_logged. Qed.
+Print Assumptions C06_wire_interleaving.
+(* "hooks panic, so put the entry back first" is refuted: a hook that logs before it looks finds the other entry *)
+Theorem C06_early_release_refuted : ~ early_release_safe.
+Proof. exact early_release_refuted. Qed.
+Print Assumptions C06_early_release_refuted.
+
 Theorem C06_wire : forall i, wf i = true -> spec i (model i) = true.
 Proof. exact spec_model. Qed.
 Print Assumptions C06_wire.
@@ -204,7 +259,7 @@ Example C06_example_blank_stdlog :
   front_call (fun _ => InvalidL) {| lcore := Nop; dev := false; on_panic := HNil; on_fatal := HNil |} all_io
              {| m_recv := RStdLog; m_kind := KLog; m_suffix := SNone |} PanicL [] = ([], Some APanic, Some []) /\
   model (SL [SL [SZ 1]; SL []; SZ 0; SL [SZ 0]; SL [SZ 0]; SZ 0; SL [SL [SZ 4; SZ 0; SZ 0; SZ 4; SB []]]]) =
-  SL [SL [SL [SL []; SL [SZ 0; SB []]; SL []; SL []]]; SL []].
+  SL [SL [SL [SL []; SL [SZ 0; SB []]; SL []; SL []; SL []]]; SL []].
 Proof. vm_compute. split; reflexivity. Qed.
 (* a 300-byte Fatal entry after a 20-byte Info entry, through BufferedWriteSyncer{Size: 128} around a stopped
    BufferedWriteSyncer around Lock around a multi-WriteSyncer of a sink and a BufferedWriteSyncer{Size: 64}
@@ -226,10 +281,33 @@ Definition ex_audit_tee : sx :=
 Definition ex_panic_call : sx := SL [SZ 0; SZ 6; SZ 0; SZ 4; SB [x68; x69]; SL []; SL []; SZ 1690].
 Example C06_example_sampled_out_sibling :
   model (SL [ex_audit_tee; SL []; SZ 0; SL [SZ 0]; SL [SZ 0]; SZ 0; SL [ex_panic_call; ex_panic_call; ex_panic_call]]) =
-  SL [SL [SL [SL [SL [SZ 0; SZ 0]; SL [SZ 1; SZ 0]; SL [SZ 0; SZ 1]; SL [SZ 1; SZ 1]]; SL [SZ 0; SB [x68; x69]]; SL []; SL [SL [SZ 0; SZ 0]]];
-              SL [SL [SL [SZ 0; SZ 0]; SL [SZ 1; SZ 0]]; SL [SZ 0; SB [x68; x69]]; SL []; SL [SL [SZ 0; SZ 1]]];
-              SL [SL [SL [SZ 0; SZ 0]; SL [SZ 1; SZ 0]]; SL [SZ 0; SB [x68; x69]]; SL []; SL [SL [SZ 0; SZ 1]]]]; SL []] /\
+  SL [SL [SL [SL [SL [SZ 0; SZ 0]; SL [SZ 1; SZ 0]; SL [SZ 0; SZ 1]; SL [SZ 1; SZ 1]]; SL [SZ 0; SB [x68; x69]]; SL []; SL [SL [SZ 0; SZ 0]]; SL []];
+              SL [SL [SL [SZ 0; SZ 0]; SL [SZ 1; SZ 0]]; SL [SZ 0; SB [x68; x69]]; SL []; SL [SL [SZ 0; SZ 1]]; SL []];
+              SL [SL [SL [SZ 0; SZ 0]; SL [SZ 1; SZ 0]]; SL [SZ 0; SB [x68; x69]]; SL []; SL [SL [SZ 0; SZ 1]]; SL []]]; SL []] /\
   (* the oracle rejects an observation in which the dropped repeat did not reach the audit core *)
   spec (SL [ex_audit_tee; SL []; SZ 0; SL [SZ 0]; SL [SZ 0]; SZ 0; SL [ex_panic_call]])
        (SL [SL [SL [SL []; SL [SZ 0; SB [x68; x69]]; SL []; SL [SL [SZ 0; SZ 1]]]]; SL []]) = false.
+Proof. vm_compute. repeat split; reflexivity. Qed.
+(* a logger named "m" whose panic hook (kind 6, number 7) makes 2 log calls through another logger while another
+   goroutine logs, then reads the entry and delegates to WriteThenPanic; one entry hook (4) on the only core.
+   Logger.Panic("hi"): the entry hook and the terminal hook report (4, "hi", "m"), the panic carries "hi"; the oracle
+   rejects a run in which the hook found the other logger's entry, and one in which a level-dispatching hook
+   (mode 3) therefore returned *)
+Definition ex_hooked_leaf : sx := SL [SZ 3; SL [SZ 0; SZ 0; SL [SZ 0; SZ (-1)]]; SZ 4].
+Definition ex_noise_case (mode : Z) : sx :=
+  SL [ex_hooked_leaf; SL []; SZ 0; SL [SZ 6; SZ 7; SZ mode]; SL [SZ 0]; SZ 0; SL [ex_panic_call]; SL [];
+      SL [SB [x6d]; SZ 2; SZ 1; SZ 1]].
+Definition ex_seen_ok : sx := SL [SZ 4; SB [x68; x69]; SB [x6d]].
+Example C06_example_logging_hook :
+  model (ex_noise_case 1) =
+  SL [SL [SL [SL [SL [SZ 0; SZ 0]; SL [SZ 1; SZ 0]; SL [SZ 2; SZ 4]]; SL [SZ 4; SZ 7; SL [SZ 0; SB [x68; x69]]]; SL []; SL [];
+              SL [ex_seen_ok; ex_seen_ok]]]; SL []] /\
+  spec (ex_noise_case 1)
+       (SL [SL [SL [SL [SL [SZ 0; SZ 0]; SL [SZ 1; SZ 0]; SL [SZ 2; SZ 4]]; SL [SZ 4; SZ 7; SL [SZ 0; SB [x61; x75; x78]]]; SL []; SL [];
+                    SL [ex_seen_ok; SL [SZ 0; SB [x61; x75; x78]; SB [x61; x75; x78]]]]]; SL []]) = false /\
+  spec (ex_noise_case 3)
+       (SL [SL [SL [SL [SL [SZ 0; SZ 0]; SL [SZ 1; SZ 0]; SL [SZ 2; SZ 4]]; SL [SZ 4; SZ 7; SL []]; SL []; SL [];
+                    SL [ex_seen_ok; ex_seen_ok]]]; SL []]) = false /\
+  (* the same interleaving with "Put, then hook": the hook finds a recycled entry *)
+  snd (wire_seen true panic_entry 1 1 0) = aux_entry.
 Proof. vm_compute. repeat split; reflexivity. Qed.
